@@ -1,3 +1,3 @@
 From Coq Require Import ExtrOcamlBasic.
-From NV Require Import Gen.Opcodes Verifier.Shape Verifier.Effect Verifier.Verify.
-Extraction "verifmodel.ml" opcode_of_N decode check_all first_bad check_at step init handler np is_entry cert.
+From NV Require Import Gen.Opcodes Verifier.Shape Verifier.Effect Verifier.Verify Verifier.Refs.
+Extraction "verifmodel.ml" opcode_of_N decode check_all first_bad check_at step init handler np is_entry cert check_refs ref_ok_at nbuiltin.
